@@ -57,21 +57,7 @@ self.x = y / self.max_eig
 """
 
 
-def check(run, M, tier):
-    run.rule("T1", "self.iter is written only by Alg.update (`+= 1`, once, after self._update()) and set to the literal 0 in constructors")
-    run.rule("T2", "every _done returns a disjunction containing `self.iter >= self.max_iter`; done() returns _done()")
-    run.rule("T3", "every other disjunct of a tol-based _done is a breakdown flag or `measure <= tol`; if the measure is a norm of state differences it "
-                   "contains the change of every caller-provided solution array that _update writes in place")
-    run.rule("T3z", "no difference `v - v_old` in an algorithm is identically zero because v_old is the same object as v "
-                    "(bound without a copy while v is only updated in place)")
-    run.rule("T4", "App.run loops `while not alg.done()` with exactly one alg.update() per iteration and returns self._output()")
-    run.rule("T5", "PowerMethod._update: y = A(x); estimate = ||y|| (or norm_func(y)); x <- y / estimate")
-    base = M.cls(ALG)
-    algs = M.subclasses(ALG)
-    run.floor("T2", 10, len(algs), "Alg subclasses")
-    eff = Effects(M)
-
-    # ---------------------------------------------------------------- T1
+def _t1(run, M, base):
     upd = M.method(base, "update", inherit=False)
     if upd is None:
         raise AnchorMissing("Alg.update")
@@ -109,6 +95,24 @@ def check(run, M, tier):
         run.check(ok, "T1", "Alg.update order", upd.loc(), "one _update() followed by one increment on every path",
                   "a path of Alg.update performs %d _update() call(s) and %d increment(s) (order %s)" % (len(calls), len(incs), "ok" if ok else "wrong"),
                   stmt="T1:order")
+
+
+def check(run, M, tier):
+    run.rule("T1", "self.iter is written only by Alg.update (`+= 1`, once, after self._update()) and set to the literal 0 in constructors")
+    run.rule("T2", "every _done returns a disjunction containing `self.iter >= self.max_iter`; done() returns _done()")
+    run.rule("T3", "every other disjunct of a tol-based _done is a breakdown flag or `measure <= tol`; if the measure is a norm of state differences it "
+                   "contains the change of every caller-provided solution array that _update writes in place")
+    run.rule("T3z", "no difference `v - v_old` in an algorithm is identically zero because v_old is the same object as v "
+                    "(bound without a copy while v is only updated in place)")
+    run.rule("T4", "App.run loops `while not alg.done()` with exactly one alg.update() per iteration and returns self._output()")
+    run.rule("T5", "PowerMethod._update: y = A(x); estimate = ||y|| (or norm_func(y)); x <- y / estimate")
+    base = M.cls(ALG)
+    algs = M.subclasses(ALG)
+    run.floor("T2", 10, len(algs), "Alg subclasses")
+    eff = Effects(M)
+
+    # ---------------------------------------------------------------- T1
+    _t1(run, M, base)
 
     # ---------------------------------------------------------------- T2 / T3
     budget = None
